@@ -25,7 +25,7 @@ T_QUICK, T_THOROUGH = 70, 1500
 FLOORS = {"hybrid_roundtrips": 4000, "json_roundtrips": 4000, "json_text_roundtrips": 1500,
           "fields_compared": 15000, "renamed_fields_compared": 3000, "nested_renamed_compared": 800,
           "fields_at_default": 2500, "elision_asserted": 2000, "omitted_field_took_default": 1500,
-          "empty_dynamic_arrays": 300, "ref_fields_nonnull": 300, "isolation_writes": 2000, "subclass_roundtrips": 400, "json_types_with_readonly_fields": 300,
+          "empty_dynamic_arrays": 300, "ref_fields_nonnull": 300, "isolation_writes": 2000, "subclass_roundtrips": 400, "batch_roundtrips": 400, "skip_and_store_roundtrips": 300, "values_next_to_the_default": 500, "json_types_with_readonly_fields": 300,
           "seen:json:st": 500, "seen:json:ar": 500, "seen:json:str": 300}
 RULE = ("A: generated hybrid class families (1-3 levels; scalars, strings, numeric arrays static/dynamic 1-2 D, nested "
         "hybrids, references to hybrids, renamed fields, default / default_factory) with values deliberately equal to "
@@ -74,6 +74,19 @@ def value_with_defaults(spec, vg, rng, p_default, marks, path=""):
         elif d is not None and rng.random() < p_default:
             mv[xn] = d.copy() if isinstance(d, np.ndarray) else d
             marks.append(path + xn)
+        elif kind == "sc" and d is not None and rng.random() < 0.2:
+            # a value next to the default but not equal to it (one unit / one ulp / a relative 1e-9 away, a tiny
+            # number when the default is 0): it is not the default and must survive the round trip
+            dt = DT[sub]
+            if dt.kind == "f":
+                v = rng.choice([np.nextafter(d, dt.type(np.inf)), dt.type(float(d) * (1 + 1e-9) if d != 0 else 2.5e-10),
+                                dt.type(float(d) + (1e-12 if abs(float(d)) < 1 else 0.001))])
+                if dt.type(v) == d:
+                    v = np.nextafter(d, dt.type(np.inf))
+                mv[xn] = dt.type(v)
+            else:
+                mv[xn] = dt.type(int(d) + 1) if int(d) < np.iinfo(dt).max else dt.type(int(d) - 1)
+            STAT["values_next_to_the_default"] = STAT.get("values_next_to_the_default", 0) + 1
         elif kind == "sc":
             mv[xn] = vg.scalar(sub)
             pool = [implicit_default(k2, s2, d2) for _x, _p, k2, s2, d2 in spec["fields"] if k2 == "sc"]
@@ -100,6 +113,18 @@ def value_with_defaults(spec, vg, rng, p_default, marks, path=""):
                 if mask.any() and not mask.all():
                     mv[xn][mask] = d[mask]
                     marks.append(path + xn + "(partly)")
+            elif d is not None and mv[xn].shape == d.shape and mv[xn].size >= 1 and rng.random() < 0.25:
+                # the default in every position but one, which is next to the default
+                mv[xn] = d.copy()
+                i = tuple(rng.randrange(n_) for n_ in d.shape)
+                if d.dtype.kind == "f":
+                    mv[xn][i] = np.nextafter(d[i], d.dtype.type(np.inf)) if rng.random() < 0.5 else d.dtype.type(float(d[i]) + 1e-12 if abs(float(d[i])) < 1 else float(d[i]) * (1 + 1e-9))
+                    if mv[xn][i] == d[i]:
+                        mv[xn][i] = np.nextafter(d[i], d.dtype.type(np.inf))
+                else:
+                    mv[xn][i] = d[i] + 1 if int(d[i]) < np.iinfo(d.dtype).max else d[i] - 1
+                marks.append(path + xn + "(next to default)")
+                STAT["values_next_to_the_default"] = STAT.get("values_next_to_the_default", 0) + 1
     return mv
 
 
@@ -252,6 +277,10 @@ def run_hybrid(w, rng):
                 viol(f"omitted-field-not-default:{kind}", f"{p}: {detail} (omitted {[f[1] for f in drop]})")
         if rng.random() < 0.35 and not seen:
             _subclass_roundtrip(w, rng, outer, vg, env, viol, resolve)
+        if rng.random() < 0.3 and not seen:
+            _batch_roundtrip(w, rng, outer, vg, env, viol, resolve)
+        if rng.random() < 0.25 and not seen:
+            _skip_store_roundtrip(w, rng, outer, vg, env, viol, resolve)
         w.case(["hy", [spec_sig(s) for s in specs], sorted(marks), dest],
                sample=dict(info, dict_keys=sorted(d)) if rng.random() < 0.003 else None)
     finally:
@@ -301,6 +330,65 @@ def _subclass_roundtrip(w, rng, parent, vg, env, viol, resolve):
                 viol("subclass-default-valued-field-not-omitted|sc", f"{pn} = {d[pn]!r}")
             if mv[xn] != own and pn not in d:
                 viol("subclass-non-default-field-omitted|sc", f"{pn}: value {mv[xn]!r}, own default {own!r}, parent default {pd[xn]!r}")
+
+
+def _batch_roundtrip(w, rng, spec, vg, env, viol, resolve):
+    """The dictionaries of several objects are all taken first and the objects rebuilt afterwards (saving a collection):
+    what a dictionary holds must not depend on later to_dict calls."""
+    mvs, objs = [], []
+    try:
+        for _ in range(rng.randint(2, 4)):
+            mv = value_with_defaults(spec, vg, rng, 0.2, [])
+            mvs.append(mv)
+            objs.append(spec["cls"](**to_kwargs(spec, mv, rng, _buffer=rng.choice([env.buf, None]))))
+        ds = [o.to_dict() for o in objs]
+        news = [spec["cls"].from_dict(d) for d in ds]
+    except Exception as e:
+        viol(f"batch-roundtrip-{exc_kind(e)}", tb(e))
+        return
+    w.count("batch_roundtrips")
+    w.count("objects_rebuilt_after_later_to_dict_calls", len(objs) - 1)
+    for i, (mv, new) in enumerate(zip(mvs, news)):
+        for p, kind, detail in compare_h(spec, mv, new, resolve)[:1]:
+            viol(f"batch-rebuilt-differs:{kind}", f"object {i} of {len(objs)}: {p}: {detail}")
+
+
+def _skip_store_roundtrip(w, rng, parent, vg, env, viol, resolve):
+    """A class skips a field in its dictionary form (_skip_in_to_dict); a class derived from it lists that field in
+    _store_in_to_dict: for the derived class the field is part of the dictionary again and survives the round trip."""
+    cand = [f for f in parent["fields"] if f[2] in ("sc", "str", "arr")]
+    if not cand:
+        return
+    xn, pn, kind, s_, dflt = rng.choice(cand)
+    ren = {a: b for a, b, *_ in parent["fields"] if a != b}
+    try:
+        ns = {"_skip_in_to_dict": [pn]}
+        if ren:
+            ns["_rename"] = dict(ren)
+        sk = type(parent["name"] + "Skip", (parent["cls"],), ns)
+        ns2 = {"_store_in_to_dict": [pn]}
+        if ren:
+            ns2["_rename"] = dict(ren)
+        st = type(parent["name"] + "SkipStore", (sk,), ns2)
+        from xv.hybridgen import register
+        register(sk)
+        register(st)
+        spec = {"name": st.__name__, "fields": parent["fields"], "cls": st}
+        mv = value_with_defaults(spec, vg, rng, 0.0, [])
+        obj = st(**to_kwargs(spec, mv, rng, _buffer=env.buf))
+        d = obj.to_dict()
+        new = st.from_dict(d)
+    except Exception as e:
+        viol(f"skip-store-roundtrip-{exc_kind(e)}", tb(e))
+        return
+    w.count("skip_and_store_roundtrips")
+    if pn not in d:
+        dv = implicit_default(kind, s_, dflt)
+        isd = dv is not None and ((mv[xn].tobytes() == dv.tobytes()) if kind == "arr" else (mv[xn] == dv))
+        if not isd:
+            viol("field-listed-in-_store_in_to_dict-missing", f"{pn} (skipped by the parent class, stored again by the derived class) is not in {sorted(d)}")
+    for p, kind_, detail in compare_h(spec, mv, new, resolve)[:1]:
+        viol(f"skip-store-rebuilt-differs:{kind_}", f"{p}: {detail}")
 
 
 def count_fields(spec, mv, resolve, depth):
